@@ -202,13 +202,18 @@ impl GLM {
             // println!("ddbeta {:?}", ddbeta);
 
             // println!("solve {:?}", solve(&ddbeta, &dbeta));
+            // the quantity the iteration minimises, at the current coefficients: the *weighted*
+            // deviance plus the ridge penalty alpha * |beta[1..]|^2 (monitoring the unweighted
+            // deviance can stall, and report convergence, while the weighted fit is still moving)
+            let penalized_deviance_previous = penalized_deviance;
+            penalized_deviance = (0..n)
+                .map(|i| weights[i] * self.family.deviance(&y[i..i + 1], &mu[i..i + 1]))
+                .sum::<f64>()
+                + self.alpha * coef[1..].iter().map(|c| c * c).sum::<f64>();
+
             coef = vsub(&coef, &solve(&ddbeta, &dbeta));
 
             // println!("coef {:?}", coef);
-
-            let penalized_deviance_previous = penalized_deviance;
-
-            penalized_deviance = self.family.penalized_deviance(y, &mu, self.alpha, &coef);
             is_converged = self.has_converged(
                 penalized_deviance,
                 penalized_deviance_previous,
